@@ -254,6 +254,47 @@ def resolveClassRefAsMulticlass (r : Rec) (classRef : PTree) : IxM (Option Nat) 
   checkTemplateArgs templateArgs argValues (nodeRange classRef)
   return some multiclassId
 
+/-- `names_class_only`: the reference names a class and no multiclass -/
+def namesClassOnly (classRef : PTree) : IxM Bool := do
+  let some nameNode := Ast.classRefName classRef | return false
+  let some (name, _) ← utilsIdentifier nameNode | return false
+  withSM fun sm => (sm.findMulticlass name).isNone && (sm.findClass name).isSome
+
+/-- one parent of a `defm` that is (to be) a multiclass -/
+def defmMulticlassParent (r : Rec) (defmId : Nat) (classRef : PTree) : IxM Unit := do
+  if let some parentMulticlassId ← resolveClassRefAsMulticlass r classRef then
+    defmMut defmId fun d => { d with parentList := d.parentList.push parentMulticlassId }
+
+/-- `utils::range_list_width`: the number of bits a range list selects (`u64`/`usize` arithmetic, `none` on a missing
+or unreadable bound or on overflow); the end of `3-0` is the negative literal `-0` -/
+def rangeListWidth (n : PTree) : Option Nat :=
+  (Ast.rangeListPieces n).foldlM (init := 0) fun width piece =>
+    match Ast.rangePieceStart piece with
+    | none => none
+    | some startNode =>
+      match Ast.integerValue startNode with
+      | none => none
+      | some start =>
+        let len : Option Nat :=
+          match Ast.rangePieceEnd piece with
+          | none => some 1
+          | some endNode =>
+            match Ast.integerValue endNode with
+            | none => none
+            | some e => some ((start.natAbs - e.natAbs) + (e.natAbs - start.natAbs) + 1)
+        match len with
+        | none => none
+        | some l => if width + l < 18446744073709551616 then some (width + l) else none
+
+/-- `utils::bits_typ` -/
+def bitsTyp (width : Nat) : Ty := if width == 1 then .bit else .bits width
+
+/-- the type of the bits a (possibly absent) range list selects; `unknown` when the width cannot be read -/
+def rangeTyp (rangeList : Option PTree) : Ty :=
+  match rangeList.bind rangeListWidth with
+  | some w => bitsTyp w
+  | none => .unknown
+
 /-- `impl Indexable for ast::ParentClassList` -/
 def indexParentClassList (r : Rec) (n : PTree) : IxM Unit := do
   if let some recordId ← currentRecordId then
@@ -269,9 +310,16 @@ def indexParentClassList (r : Rec) (n : PTree) : IxM Unit := do
       if let some parentMulticlassId ← resolveClassRefAsMulticlass r classRef then
         multiclassMut multiclassId fun mc => { mc with parentList := mc.parentList.push parentMulticlassId }
   else if let some defmId ← currentDefmId then
-    for classRef in Ast.parentClassListClasses n do
-      if let some parentMulticlassId ← resolveClassRefAsMulticlass r classRef then
-        defmMut defmId fun d => { d with parentList := d.parentList.push parentMulticlassId }
+    -- the first parent is a multiclass; the multiclasses may be followed by classes for the records the defm creates
+    match Ast.parentClassListClasses n with
+    | [] => pure ()
+    | first :: rest =>
+      defmMulticlassParent r defmId first
+      for classRef in rest do
+        if ← namesClassOnly classRef then
+          let _ ← resolveClassRefAsClass r classRef
+        else
+          defmMulticlassParent r defmId classRef
   else
     panic "parent class list outside of record or multiclass"
 
@@ -303,6 +351,10 @@ def indexFieldLet (r : Rec) (n : PTree) : IxM Unit := do
   let newFieldId ← addRecordField { name := name, typ := fieldTyp, parent := recordId, defineLoc := referenceLoc }
   recordMut recordId fun rec => { rec with nameToRecordField := indexMapInsert rec.nameToRecordField name newFieldId }
   addReference (.recordField fieldId) referenceLoc
+  -- `let f{3-0} = v;` sets the selected bits only
+  let fieldTyp := match Ast.fieldLetRangeList n with
+    | some rangeList => rangeTyp (some rangeList)
+    | none => fieldTyp
   let some value := Ast.fieldLetValue n | return
   let some valueTyp ← r.value value | return
   if !(← canBeCastedTo valueTyp fieldTyp) then
@@ -560,7 +612,7 @@ def indexInnerValue (r : Rec) (n : PTree) : IxM (Option Ty) := do
     match suffix.kind with
     | .RangeSuffix =>
       match lhsTyp with
-      | .bits _ => lhsTyp := .bit
+      | .bits _ => lhsTyp := rangeTyp (Ast.rangeSuffixRangeList suffix)   -- `b{0}` is a bit, `b{3...0}` are four bits
       | _ => return none
     | .SliceSuffix =>
       if Ast.sliceSuffixIsSingleElement suffix then
